@@ -93,7 +93,7 @@ impl Property for C14 {
         "(a) labels: generated flag-definition sets (names, default-on bits) x ALL 256 masks: RawInstr{difficulty: m} -> decompile -> label text -> parse+compile -> difficulty byte == m, and the label text read by the harness's own label parser == m; (b) switches: statements with 1..3 difficulty switches of 2..8 cases with holes and nesting under a sampled label: for every difficulty 0..7 exactly one emitted copy applies where the switch has a position and the label permits, carrying that difficulty's case values, default-on bits as the label set them; (c) streams: instruction runs with arbitrary/partitioned masks -> decompile with switch recognition -> recompile -> same per-difficulty call log for d = 0..7; non-trivial = (a) a default-on flag is defined, (b) a hole or nesting, (c) a switch was recognised"
     }
     fn tape_len(&self, tier: Tier) -> usize { tier.pick(120, 200) }
-    fn cases(&self, tier: Tier) -> u32 { tier.pick(3000, 200000) }
+    fn cases(&self, tier: Tier) -> u32 { tier.pick(60000, 1500000) }
     fn required_labels(&self, _tier: Tier) -> Vec<&'static str> { vec!["labels", "switch", "stream", "default_on_flag", "hole", "nested", "switch_recognised", "aux_in_label"] }
 
     fn fixed_cases(&self, tier: Tier, _known: &Known) -> Vec<Value> {
